@@ -57,14 +57,14 @@ theorem cloned_fetch_one (len c : Nat) (evs dr) :
       .ok (if c < len then some ⟨c, c⟩ else none)
         { st (wrapAdd c 1) (evs ++ [faa c 1]) dr with clones := if c < len then [c] else [] } := by
   simp only [Cloned.fetch_one, Cloned.counter, Cloned.get, Slice.counter, Slice.get, Counter.fetch_and_increment, cl, slice, st, faa,
-    bind, M.bind, pure, M.pure, m_fetch_add, m_get, m_map, MMap.m_map, m_cloned, MCloned.m_cloned]
+    bind, M.bind, pure, M.pure, m_fetch_add, St.get_ctr, St.set_ctr, m_get, m_map, MMap.m_map, m_cloned, MCloned.m_cloned]
   by_cases h1 : c < len <;> simp [h1, M.pure, M.bind]
 
 theorem copied_fetch_one (len c : Nat) (evs dr) :
     Copied.fetch_one (cl len) (st c evs dr) = Slice.fetch_one (slice len) (st c evs dr) := by
   rw [slice_fetch_one]
   simp only [Copied.fetch_one, Copied.counter, Copied.get, Slice.counter, Slice.get, Counter.fetch_and_increment, cl, slice, st, faa,
-    bind, M.bind, pure, M.pure, m_fetch_add, m_get, m_map, MMap.m_map, m_copied, MCopied.m_copied]
+    bind, M.bind, pure, M.pure, m_fetch_add, St.get_ctr, St.set_ctr, m_get, m_map, MMap.m_map, m_copied, MCopied.m_copied]
   by_cases h1 : c < len <;> simp [h1, M.pure, M.bind]
 
 theorem cloned_buffered_next (len n c : Nat) (evs dr) :
